@@ -27,6 +27,11 @@ def make_copy():
 
 def apply(copy, edits):
     for e in edits:
+        if "patch" in e:
+            p = subprocess.run(["patch", "-p1", "-s", "-d", copy, "-i", os.path.join(VERIF, e["patch"])], stdout=subprocess.PIPE, stderr=subprocess.STDOUT, text=True)
+            if p.returncode != 0:
+                raise SystemExit("selftest case: patch %s does not apply: %s" % (e["patch"], p.stdout[-300:]))
+            continue
         p = os.path.join(copy, e["file"])
         s = open(p).read()
         if s.count(e["old"]) != e.get("count", 1):
